@@ -1,7 +1,131 @@
-(* API commands for the Dist package (stub until the package lands). *)
-From Coq Require Import ZArith List.
-From Labella Require Import Extract.Codec.
+(* API commands 340..379: distributor (C04).
+   340  distribute     alg lw? density spacing stub labels   -> layering
+   341  force_layers   alg minPos? maxPos? density spacing stub labels -> layering
+   342  widths         alg lw? density spacing stub labels   -> required width, estimate, split?
+   alg: 0 overlap, 1 simple, 2 none.  A rational is `num den`, an optional
+   value `0` or `1 value`, labels are `n` followed by n pairs `pos width`.
+   Layering result: 1 L then per layer `len` and len pairs `input_index is_stub` (label ids are indices
+   into the caller's list, through dist_perm); 0 = out of fuel; 2 = input
+   outside the documented domain (width <= 0, spacing < 0, stub width < 0,
+   density <= 0: the implementation raises or is unspecified there). *)
+From Coq Require Import ZArith QArith List Bool.
+From Labella Require Import Extract.Codec Layout.Distribute.
 Import ListNotations.
 Open Scope Z_scope.
 
-Definition api_dist (cmd : Z) (a : list Z) : list Z := bad_input.
+Definition d_alg : dec algo := fun l =>
+  match l with
+  | 0 :: r => Some (AlgOverlap, r)
+  | 1 :: r => Some (AlgSimple, r)
+  | 2 :: r => Some (AlgNone, r)
+  | _ => None
+  end.
+
+Definition d_label : dec label := fun l =>
+  match d_pair d_q d_q l with
+  | Some ((p, w), r) => Some (mkLabel p w, r)
+  | None => None
+  end.
+
+Definition d_dopts : dec dopts := fun l =>
+  match d_alg l with
+  | Some (a, r1) =>
+    match d_opt d_q r1 with
+    | Some (lw, r2) =>
+      match d_q r2 with
+      | Some (dens, r3) =>
+        match d_q r3 with
+        | Some (sp, r4) =>
+          match d_q r4 with
+          | Some (st, r5) => Some (mkDopts a lw dens sp st, r5)
+          | None => None
+          end
+        | None => None
+        end
+      | None => None
+      end
+    | None => None
+    end
+  | None => None
+  end.
+
+Definition d_fopts : dec fopts := fun l =>
+  match d_alg l with
+  | Some (a, r1) =>
+    match d_opt d_q r1 with
+    | Some (mn, r2) =>
+      match d_opt d_q r2 with
+      | Some (mx, r2') =>
+        match d_q r2' with
+        | Some (dens, r3) =>
+          match d_q r3 with
+          | Some (sp, r4) =>
+            match d_q r4 with
+            | Some (st, r5) => Some (mkFopts a mn mx dens sp st, r5)
+            | None => None
+            end
+          | None => None
+          end
+        | None => None
+        end
+      | None => None
+      end
+    | None => None
+    end
+  | None => None
+  end.
+
+Definition e_item (perm : list nat) (it : item) : list Z :=
+  [Z.of_nat (nth (fst it) perm 0%nat); if snd it then 1 else 0].
+
+Definition e_layering (o : dopts) (labels : list label) (r : option (list (list item))) : list Z :=
+  if dist_dom_b o labels then
+    match r with
+    | None => [0]
+    | Some ls => 1 :: e_list (e_list (e_item (dist_perm o labels))) ls
+    end
+  else [2].
+
+Definition api_distribute (a : list Z) : list Z :=
+  match d_dopts a with
+  | Some (o, r) =>
+    match d_list d_label r with
+    | Some (labels, _) => e_layering o labels (distribute o labels)
+    | None => bad_input
+    end
+  | None => bad_input
+  end.
+
+Definition api_force_layers (a : list Z) : list Z :=
+  match d_fopts a with
+  | Some (f, r) =>
+    match d_list d_label r with
+    | Some (labels, _) => e_layering (dopts_of_fopts f) labels (force_layers f labels)
+    | None => bad_input
+    end
+  | None => bad_input
+  end.
+
+(* computeRequiredWidth / estimateRequiredLayers / needToSplit on the caller's list *)
+Definition api_widths (a : list Z) : list Z :=
+  match d_dopts a with
+  | Some (o, r) =>
+    match d_list d_label r with
+    | Some (labels, _) =>
+      if dist_dom_b o labels then
+        let ws := map l_width labels in
+        1 :: e_q (required_width (o_spacing o) ws) ++
+        [estimate_layers o ws; if need_to_split o ws then 1 else 0]
+      else [2]
+    | None => bad_input
+    end
+  | None => bad_input
+  end.
+
+Definition api_dist (cmd : Z) (a : list Z) : list Z :=
+  match cmd with
+  | 340 => api_distribute a
+  | 341 => api_force_layers a
+  | 342 => api_widths a
+  | _ => bad_input
+  end.
